@@ -82,6 +82,9 @@ def needs_from_notes(notes: str) -> str:
 
 
 STRENGTHENED |= {"C01d", "C03e", "C04d", "C04e", "C05e", "C06e", "C08e", "C09d", "C10e", "C12e", "C16d", "C16e", "C17e", "C18d", "C18e"}
+STRENGTHENED |= {"C03k", "C04j", "C06k", "C09j", "C09k", "C13k", "C15j", "C15k", "C17k", "C18k"}
+CAUGHT.update({"C08k": "C17 quick (`exit-code:runspace_over_cap`: the change is in the CLI's merge of --run-space-max-runs)",
+               "C12k": "C10 quick (`aliasing:config-edited-after-build`)"})
 STRENGTHENED |= {"C01i", "C02i", "C03h", "C04i", "C05i", "C06h", "C07h", "C11i", "C12h", "C13h", "C14h", "C14i", "C15i", "C16h", "C17h", "C18h", "C18i"}
 CAUGHT.update({"C06h": "C01 quick (`bystander-values:raises`: with the change every run whose context holds a numpy array fails, traced or not)",
                "C13h": "C09 quick (`launch-id`, `fk`: the producer writes a sanitised launch id into run_space_start/end only)",
@@ -99,7 +102,7 @@ for pid in sorted(os.listdir(os.path.join(HERE, "seeded"))):
     meta = {
         "property": pid[:3],
         "check": pid[:3],
-        "round": {"": 1, "b": 2, "c": 3, "d": 4, "e": 4, "f": 5, "g": 5, "h": 6, "i": 6}[pid[3:]],
+        "round": {"": 1, "b": 2, "c": 3, "d": 4, "e": 4, "f": 5, "g": 5, "h": 6, "i": 6, "j": 7, "k": 7}[pid[3:]],
         "origin": "fresh sub-agent given only the property text and a scratch worktree" + (" (plus the note that registry growth is already known)" if pid == "C18" else ""),
         "summary": first[:300],
         "needs_to_manifest": NEEDS.get(pid) or needs_from_notes(notes),
